@@ -35,7 +35,7 @@ LEVEL_TEXT = (
 )
 LEVEL_NOTE = 'Trusted: gvmc/ref/geom.py, gvmc/ref/hop.py. Bin 0 of the per-state histograms (distance exactly 0 = self pairs) and, for equal species, self pairs are dont-care; pairs within 1e-9 of a bin edge make the two adjacent bins dont-care.'
 TECHNIQUE = 'bounded-exhaustive end-to-end trace enumeration against brute-force histograms'
-ASSUMPTIONS = ['site assignment of the concretised trace is recovered by the real code (checked; C02 is the property that demands it)']
+ASSUMPTIONS = ['state names are derived from the site states the real code reports (C02 decides whether those are right)']
 
 R_SITE = 0.6
 PARAMS = [(2.0, 0.5), (3.0, 0.3), (5.0, 0.1)]
@@ -113,9 +113,12 @@ def evaluate(trace, M, labels, param, fw, res: Result):
         res.stats['transitions_raise'] += 1
         return
     o, _ = hop.state_arrays(trace)
-    if np.asarray(tr.states).tolist() != o:
-        res.stats['state_recovery_failed'] += 1
-        return
+    real_states = np.asarray(tr.states).tolist()
+    if real_states != o:
+        # C02's business; the RDF oracle below is built from the states the real code reports, so that
+        # this check does not depend on the site assignment being right
+        res.stats['states_differ_from_symbolic_trace'] += 1
+    trace = [[0 if s == -1 else 1 + 2 * int(s) for s in row] for row in real_states]
     res.stats['scenarios'] += 1
     max_dist, reso = PARAMS[param]
     bins = np.arange(0, max_dist + reso, reso)
@@ -244,7 +247,7 @@ def run_shard(shard) -> Result:
 def finalize(total, tier):
     from ..core import HarnessError
 
-    if total.stats['scenarios'] == 0 or total.stats['state_recovery_failed'] > total.stats['scenarios']:
+    if total.stats['scenarios'] == 0:
         raise HarnessError(f'scenario construction failed too often: {dict(total.stats)}')
 
 
